@@ -19,6 +19,8 @@ import (
 	"sort"
 	"strconv"
 	"strings"
+	"sync"
+	"time"
 )
 
 // ---------- deterministic PRNG: every random choice derives from one splitmix64 state ----------
@@ -68,6 +70,7 @@ type out struct {
 }
 
 func newOut(dir string) *out {
+	wdOnce.Do(func() { go watchdog() }) // started before any goroutine counting
 	must(os.MkdirAll(dir, 0o755))
 	o := &out{dir: dir, stats: map[string]int{}, distinct: map[string]struct{}{}}
 	open := func(name string) *bufio.Writer {
@@ -276,9 +279,46 @@ func (o *out) run(cmd int, fields []string, nontrivial bool) []int {
 	for i, f := range fields {
 		fs[i] = parseField(f)
 	}
+	// watchdog: a case that does not come back within 20 s (an endless loop in the library) is reported with
+	// its case line, the outputs are flushed, and the process ends: nothing after it can run
+	var sb strings.Builder
+	sb.WriteString(strconv.Itoa(cmd))
+	for _, f := range fields {
+		sb.WriteByte(' ')
+		sb.WriteString(f)
+	}
+	wdMu.Lock()
+	wdCase, wdStart, wdOut = sb.String(), time.Now(), o
+	wdMu.Unlock()
+	wdOnce.Do(func() { go watchdog() })
 	obs := cmds[cmd](o, fs)
+	wdMu.Lock()
+	wdCase = ""
+	wdMu.Unlock()
 	o.emit(cmd, fields, obs, nontrivial)
 	return obs
+}
+
+var (
+	wdMu    sync.Mutex
+	wdCase  string
+	wdStart time.Time
+	wdOut   *out
+	wdOnce  sync.Once
+)
+
+func watchdog() {
+	for {
+		time.Sleep(time.Second)
+		wdMu.Lock()
+		c, st, o := wdCase, wdStart, wdOut
+		wdMu.Unlock()
+		if c != "" && time.Since(st) > 20*time.Second {
+			o.fail("case-does-not-return", c)
+			o.close(map[string]interface{}{"aborted": "a case did not return within 20 s"})
+			os.Exit(0)
+		}
+	}
 }
 
 // replay re-executes literal case lines (one per line in the file given as first extra arg).
